@@ -83,7 +83,7 @@ def fresh (d : List (Nat × Nat)) : List (Nat × Nat) := contigDims (sizes d)
 /-- Storage-converting methods (those that consume or copy the tensor). -/
 inductive Conv
   | intoCow | intoArc | intoOwned | toTensor | asCow | clone | toContiguous | reshapedSame
-  | intoShapeSame | intoContiguous
+  | intoShapeSame | intoContiguous | intoDyn | intoPermutedRev
   deriving DecidableEq, Repr
 
 /-- The conversions as coded; `none` = the method does not exist for that storage type.
@@ -116,6 +116,10 @@ def convert (fixed : Bool) : Conv → T → Option T
   | .intoShapeSame, ⟨.vec, d⟩ => some ⟨.vec, fresh d⟩
   -- `Tensor::into_contiguous`: `make_contiguous` keeps a contiguous layout, else copies
   | .intoContiguous, ⟨.vec, d⟩ => if isContiguous d then some ⟨.vec, d⟩ else some ⟨.vec, fresh d⟩
+  -- `into_dyn` (also `into_rank`, `assume_init`): any storage, storage and layout kept
+  | .intoDyn, t => some t
+  -- `into_permuted(reversed axes)`: any storage, storage kept, dims permuted
+  | .intoPermutedRev, ⟨k, d⟩ => some ⟨k, d.reverse⟩
   | _, _ => none
 
 /-- Public constructor / conversion methods of `tensor.rs` whose result is a tensor, with
@@ -152,6 +156,10 @@ def apiTable : List (String × String) := [
   ("to_tensor", "fresh"), ("to_tensor_in", "fresh"), ("slice_copy", "fresh"),
   ("slice_copy_in", "fresh"), ("from_iter", "fresh"), ("from", "fresh-or-keep"),
   ("try_from", "keep"), ("clone", "keep"), ("expanded_layout", "checked"),
+  ("mut:clip_dim", "shrink"), ("mut:insert_axis", "viewop"), ("mut:remove_axis", "viewop"),
+  ("mut:merge_axes", "viewop"), ("mut:move_axis", "viewop"), ("mut:permute", "viewop"),
+  ("mut:transpose", "viewop"), ("mut:append", "grow-checked"), ("mut:make_contiguous", "fresh"),
+  ("mut:reshape", "fresh"), ("mut:reshape_in", "fresh"),
   ("concat", "fresh"), ("map_in", "fresh"), ("mut_view_ref", "keep"), ("view_ref", "immutable")]
 
 end RtenVerif.OverlapCtor
